@@ -30,7 +30,7 @@ ASSUMPTIONS = ["bounded liveness: once the last job is enqueued and no fault is 
                "10 s + 2 s x jobs (+ injected stall time) of virtual time",
                "no pre-emption inside semantiva.core / pipeline execution (a job run is one scheduling step)"]
 REQUIRED_PROBES = ["failing_job", "slow_job", "multi_worker", "late_worker", "batch_ge_10", "fire_and_forget_job_mixed_in", "two_failing_jobs",
-                   "same_yaml_path_rewritten", "failing_job_with_two_argument_exception", "job_enqueued_from_done_callback", "worker_stopped_and_replaced_mid_batch", "worker_with_bounded_pool_executor"]
+                   "same_yaml_path_rewritten", "failing_job_with_two_argument_exception", "job_enqueued_from_done_callback", "worker_stopped_and_replaced_mid_batch", "worker_with_bounded_pool_executor", "job_context_with_protocol_like_key"]
 CONFIG = {
     "quick": {"runs": 2500, "budget_s": 240, "timeout_s": 120, "per_fork": 4},
     "thorough": {"runs": 150000, "budget_s": 1600, "timeout_s": 180, "per_fork": 6},
@@ -61,6 +61,10 @@ def generate(rng: random.Random, tier: str, seed: int) -> dict:
                "no_future": rng.random() < 0.15,            # fire-and-forget job (enqueue without return_future)
                "ctx_none": rng.random() < 0.6,              # an empty context is passed as context=None
                "as_yaml": rng.random() < 0.12}              # pipeline_cfg given as a path to a YAML file
+        if rng.random() < 0.12:
+            # legal user keys that look like protocol fields: they are the job's own data and must come back untouched
+            job["context"] = dict(job["context"], **{rng.choice(["error", "status", "result", "metadata"]): rng.choice([0.125, "error", "failed", 1.0])})
+            job["protocol_like_key"] = True
         if j in fail_set:
             fs = [f for f in gen.applicable_failures(base) if f[0] in ("unresolvable", "type_gate", "undeclared_op", "undeclared_ctx", "unknown_param")]
             if rng.random() < 0.25 and base["truth"][-1]["out"] == "float":
@@ -393,6 +397,8 @@ def execute(sc: dict, seed: int) -> dict:
         if any(j.get("fail") for j in sc["jobs"]):
             stats["probe.failing_job"] = 1
             stats["fault.failing_job"] = 1
+        if any(j.get("protocol_like_key") for j in sc["jobs"]):
+            stats["probe.job_context_with_protocol_like_key"] = 1
         if any(j.get("slow") for j in sc["jobs"]):
             stats["probe.slow_job"] = 1
             stats["fault.slow_job"] = sum(1 for j in sc["jobs"] if j.get("slow"))
